@@ -148,8 +148,55 @@ def oracle_failing(p, s, chunks, trace):
     return None
 
 
+def sudo_case(case):
+    """Context.sudo over scripted output: the password is sent once per prompt; the sudo sentinel arriving in a read
+    after the response surfaces as AuthFailure; without the sentinel the run succeeds"""
+    from fakerunner import Scripted
+    from invoke import Context, Config
+    from invoke.exceptions import AuthFailure, Failure
+    made = []
+
+    class R(Scripted):
+        def __init__(self, ctx):
+            super().__init__(ctx, out=[c.encode() for c in case["out"]], finish_when="drained")
+            made.append(self)
+    cfg = Config(overrides={"sudo": {"password": "pw", "prompt": "[sudo] password: "}, "runners": {"local": R}})
+    c = Context(cfg)
+    raised = None
+    try:
+        c.sudo("whoami", hide=True, in_stream=False)
+    except AuthFailure:
+        raised = "AuthFailure"
+    except Failure as e:
+        raised = "Failure:" + type(e.reason).__name__
+    writes = [w.decode() for w in made[0].stdin_writes]
+    whole = "".join(case["out"])
+    prompts = whole.count("[sudo] password: ")
+    sentinel = "Sorry, try again.\n"
+    if sentinel not in whole:
+        if raised:
+            return "sudo: %s raised although the failure sentinel never occurs" % raised
+        if writes != ["pw\n"] * prompts:
+            return "sudo: %d prompt(s) in the output, responses written to stdin: %r" % (prompts, writes)
+        return None
+    # sentinel wholly inside reads after the read that completed the first prompt => authentication failure
+    for i in range(1, len(case["out"])):
+        pre, post = "".join(case["out"][:i]), "".join(case["out"][i:])
+        if "[sudo] password: " in pre and sentinel in post and sentinel not in pre:
+            if raised != "AuthFailure":
+                return "sudo: the failure sentinel arrived after the password was sent but %s was raised, not AuthFailure" % raised
+            break
+    return None
+
+
 def replay(case):
     kind = case["kind"]
+    if kind == "sudo":
+        try:
+            why = common.with_timeout(sudo_case, 30, case)
+        except common.Hang:
+            why = "[hang] sudo run did not return"
+        return why is None, why or "ok"
     p = [tuple(c) for c in case["pat"]]
     if kind == "resp":
         counts = impl_responder(p, case["chunks"])
@@ -253,6 +300,17 @@ def run(ctx):
         why = check_runner_case(c)
         if why:
             out.fail(c, why)
+    # sudo: the FailingResponder wired up by Context.sudo
+    texts = ["[sudo] password: root\n", "[sudo] password: Sorry, try again.\n[sudo] password: ", "hello\n",
+             "[sudo] password: Sorry, try again.\n", "x[sudo] password: y\nSorry, try again.\nz"]
+    for t in texts:
+        for _ in range(ctx.n(12, 120)):
+            c = {"kind": "sudo", "out": random_chunking(rng, t)}
+            out.case(c, True)
+            out.hist["sudo"] += 1
+            ok, why = replay(c)
+            if not ok:
+                out.fail(c, why)
     return out
 
 LEVEL_TEXT = ("Lean 4 proof (responder_chunk_invariant, responder_chunkings_agree, never_reanswers) that for every fixed-width "
